@@ -26,7 +26,8 @@ class LaunchMonitor(Monitor):
     """Records every job launch with world-truth at that instant; checks
     validity, prerequisites (C01), duplicates (C02), bounds (C07)."""
 
-    def __init__(self, check_prereqs=True, manual=None):
+    def __init__(self, check_prereqs=True, manual=None, truth_extra=None):
+        self.truth_extra = truth_extra   # callable() -> {(name, p): outputs}
         self.check_prereqs = check_prereqs
         self.manual = manual if manual is not None else set()
         self.keys = {}
@@ -62,6 +63,9 @@ class LaunchMonitor(Monitor):
             return
         if self.check_prereqs:
             truth = world_truth_outputs(res.world, res.plan, prog, now)
+            if self.truth_extra is not None:
+                for k, v in self.truth_extra().items():
+                    truth.setdefault(k, set()).update(v)
             for e in model.prereq_exprs(name, p):
                 if not model.eval(e, truth, p):
                     res.violate('launch_prereq_unsatisfied', {
